@@ -205,7 +205,46 @@ def execute(ctx, runs, prefixes, par_run=6, par_tlc=6):
             stats["runs"] += 1
     if results:
         ctx.sample_lines(results[0][1], 8, 300)
+    stats["_first_trace"] = results[0][1] if results else None
     return stats
+
+
+def binding_demo(ctx, trace):
+    """Vacuity control of the binding (DESIGN section 7): corrupt one logged field / drop one event
+    of an ACCEPTED trace and confirm that Trace_Scheduler rejects each corrupted copy."""
+    lines = open(trace).read().splitlines()
+    def first(pred):
+        return next((i for i, l in enumerate(lines) if pred(l)), None)
+    muts = {}
+    i = first(lambda l: l.startswith('{"ev":"LastParked"') and '"result":"WakeAll"' in l)
+    if i is not None:
+        muts["result-WakeAll-to-WakeSelf"] = lines[:i] + [lines[i].replace("WakeAll", "WakeSelf")] + lines[i + 1:]
+    i = first(lambda l: l.startswith('{"ev":"MakeRequest"') and '"newly":true' in l)
+    if i is not None and lines[i + 1].startswith('{"ev":"Notify"'):
+        muts["drop-notify-after-make-request"] = lines[:i + 1] + lines[i + 2:]
+    i = first(lambda l: l.startswith('{"ev":"Park"') and '"all":false' in l)
+    if i is not None:
+        muts["parked-count-off-by-one"] = lines[:i] + [re.sub(r'"parked":(\d+)', lambda m: '"parked":%d' % (int(m.group(1)) + 1), lines[i])] + lines[i + 1:]
+    i = first(lambda l: l.startswith('{"ev":"BucketOpen"') and '"stage":3,' not in l)
+    if i is not None:
+        muts["drop-one-bucket-open"] = lines[:i] + lines[i + 1:]
+    i = first(lambda l: l.startswith('{"ev":"PacketStart"') and "ScanMutatorRoots" in l)
+    if i is not None:
+        muts["packet-started-twice"] = lines[:i + 1] + ['{"ev":"PacketEnd","w":%s,"th":%s}' % (
+            json.loads(lines[i])["w"], json.loads(lines[i])["th"]), lines[i]] + lines[i + 1:]
+    out = {}
+    for name, ls in muts.items():
+        pth = os.path.join(ctx.work, "demo_%s.ndjson" % name)
+        with open(pth, "w") as f:
+            f.write("\n".join(ls) + "\n")
+        rc, o, _ = ctx._tlc(SD, "Trace_Scheduler.tla", "Trace_Scheduler.cfg", "demo_" + name, 1, 900,
+                            jvm=vf.TRACE_JVM, env={"TRACE": pth})
+        tags = sorted(set(re.findall(r"ROW_REJECTED l=\d+ tag=([^\s\"]+)", o)))
+        if not tags and "TRACE_REJECTED" not in o:
+            raise vf.ToolError("binding demonstration: corrupted trace %s was accepted" % name)
+        out[name] = tags[:3] or ["TRACE_REJECTED"]
+    ctx.cov["binding_demo"] = out
+    vf.log("binding demonstration: %s" % out)
 
 
 def design_mc(ctx, prop, cfgs_quick, cfgs_thorough=()):
